@@ -180,6 +180,15 @@ def marker_laws(chk):
     for _ in range(150 if chk.tier == "quick" else 2000):
         x, y, z = rnd.sample(texts, 3)
         triples.append((("TEXT", f"{x} and {y} or {z}"), rnd.choice(keys), rnd.choice(keys)))
+    # same-kind compounds with subset members as operands (absorption laws are where a wrong shortcut shows)
+    plain = [k for k in keys if not k[4]]
+    for i in range(120 if chk.tier == "quick" else 1500):
+        x, y, z = rnd.sample(plain, 3)
+        if len({x[1], y[1], z[1]}) < 3 or sum(1 for k in (x, y, z) if k[1].startswith("python")) > 1:
+            continue
+        kind = ("MarkerUnion", "MultiMarker")[i % 2]
+        triples.append(((kind, x, y, z), (kind, x, y), rnd.choice(plain)))
+        triples.append(((kind, x, y), (kind, x, y, z), rnd.choice(plain)))
     src = str(chk.src)
     per = max(1, (len(triples) + chk.jobs * 3 - 1) // (chk.jobs * 3))
     total = nf = 0
